@@ -418,7 +418,7 @@ func sizeScenariosFor(run *rep.Run, L, AM, eiBase int) {
 			continue
 		}
 		host := client.HostOf(w.Base)
-		for _, route := range []string{"proxy", "provider", "anthropic-passthrough", "anthropic-translated"} {
+		for _, route := range []string{"proxy", "provider", "anthropic-passthrough", "anthropic-translated", "anthropic-count-tokens"} {
 			limit := L
 			if strings.HasPrefix(route, "anthropic") {
 				limit = AM
@@ -444,6 +444,8 @@ func sizeScenariosFor(run *rep.Run, L, AM, eiBase int) {
 						path, body = "/olla/anthropic/v1/messages", mk(`{"model":"mall","max_tokens":4,"messages":[{"role":"user","content":"`, `"}]}`)
 					case "anthropic-translated":
 						path, body = "/olla/anthropic/v1/messages", mk(`{"model":"mtra","max_tokens":4,"messages":[{"role":"user","content":"`, `"}]}`)
+					case "anthropic-count-tokens": // answered by Olla itself, nothing is forwarded
+						path, body = "/olla/anthropic/v1/messages/count_tokens", mk(`{"model":"mtra","max_tokens":4,"messages":[{"role":"user","content":"`, `"}]}`)
 					}
 					var chunks []int
 					if enc == "chunked" {
@@ -488,6 +490,10 @@ func sizeScenariosFor(run *rep.Run, L, AM, eiBase int) {
 							}
 							wit["max_body_size"], wit["max_message_size"] = L, AM
 							run.Violation(k, fmt.Sprintf("Anthropic request above max_message_size answered %d, not 413", res.Status), wit)
+						}
+					} else if route == "anthropic-count-tokens" {
+						if res.Status != 200 {
+							run.Violation("C17/body-within-limit-refused/"+route+"/"+enc+"/"+rel, fmt.Sprintf("a %d-byte body (limit %d) was not served: status %d", len(body), limit, res.Status), wit)
 						}
 					} else {
 						if got == nil || res.Status != 200 {
